@@ -84,6 +84,16 @@ CHECKS['C15'] = dict(
    note='Trusted: as C14; "nearest tabulated events" read with ties (5000 and 5K both at 5 km); int(1000*float) binary truncation passed as an observed hint checked to be at most 1 m below the exact floor.',
    technique='Lean 4 proof (interpolation lemmas, bracket theorem) + decide +kernel side-conditions on regenerated tables + exhaustive distance sweep',
    ref='7/C15')
+CHECKS['C06'] = dict(
+   text='Machine-checked proofs (core Lean) over string-level transcriptions of round_up_str_num, format_seconds_as_time and parse_hms: for digit strings of ANY length and every precision the round-up result has exactly p decimals and its value is the ceiling of the value truncated to maxDP decimals (empty integer part, leading zeros and dot-less inputs included); the formatted text has minutes and seconds below 60, two-digit fields, p decimals and is the ceiling of whole + truncated residue (carries through 59.9995 and 3599.99 shown); parse(format x) lies in [trunc5(x), trunc5(x) + 10^-p); parsing is exact with either separator, integers stay integers, and the model returns a number or ValueError, nothing else. The float subtraction and the fixed-notation rendering of the residue are inputs supplied by the harness and checked on every line. Correspondence on ~1 M lines in quick (exhaustive over fractions of 0-7 digits over {0,5,9} x 24 integer parts x precision 0..5; every ms around 20 carries up to 100 h; residues n*10^-e; all 1-3 field texts over a field alphabet with both separators; junk for totality).',
+   note='Trusted: Lean kernel; axioms propext, Quot.sound, Classical.choice; float arithmetic observed (residue subtraction checked exact, %.9f text checked within 5e-10); other int()/float() syntaxes (underscores, exponents, inf/nan, Unicode digits, white space) only in the totality stream.',
+   technique='Lean 4 proof (digit-string arithmetic, all lengths) + exhaustive small-alphabet correspondence',
+   ref='7/C06')
+CHECKS['C18'] = dict(
+   text='Both ports are compared with ONE Lean model per ported function (the C06 models for roundUpStrNum / formatSecondsAsTime / parseHms / isHandTiming): agreement of Python and JS on an input follows from both agreeing with the model (C18_agree_of_correspondence), and where both equal the model the C06 theorems say both are right, not merely equal; proved: the JS integer increment is exact below 2^53 (in particular for <= 15 digits), with a concrete inexact witness at 2^53. normalizeEventCode on every scoring-table key and its case / padding variants, tyrvingScore and qkidsScore over every table x the grid incl. hand-timed one-decimal texts, the duplicated tables (deep equality) and every patterns.js export (vs. what the repo generator produces from athlib.codes) are compared directly JS <-> Python; js/src is loaded under plain node by a vm loader. "Both refuse" = Python raises and JS throws or returns NaN / undefined.',
+   note='Partial by nature: no theorem speaks about node or CPython; agreement rests on the two correspondences. rus lines longer than 15 digits and exotic number syntaxes (1e3, ...) are outside the shared domain and not judged.',
+   technique='two correspondences (Python <-> Lean model, JS <-> Lean model) on shared request lines + direct JS <-> Python comparison of tables, patterns and scores',
+   ref='7/C18')
 NOT_YET = {}
 def main():
     props = [json.loads(l) for l in open(os.path.join(HERE, 'properties.jsonl'))]
